@@ -272,6 +272,9 @@ impl Prop for C18 {
     fn assumptions(&self) -> Vec<String> {
         vec!["TOML is documented as unsupported and not exercised".into(), "gds2json/gds2yaml/markup2gds are thin clap wrappers over gds_serialization::{to_markup,from_markup}: called in-process in both tiers; the thorough tier additionally spawns the real binaries (generator cli-binaries; skipped with a counter if they cannot be built)".into()]
     }
+    fn miri_gen(&self) -> Option<&'static str> {
+        Some("gds-values")
+    }
     fn plan(&self, tier: Tier) -> Vec<GenSpec> {
         vec![
             GenSpec::random("gds-values", tier.pick(6_000, 400_000)),
